@@ -1514,9 +1514,11 @@ class VacancyMediated(object):
             # reference value is 0
             biasSvec[sv] = -np.dot(self.om2bias[sv, :], omega2escape[sv, :]) * np.sqrt(prob[starindex])
             # removed the om2 contribution--will be added back in later. Separation necessary for large_om2 case
+            # the omega0 reference is the same complex without interaction: probability probS*probV
+            probSV0sqrt = np.sqrt(probS[self.kineticsvWyckoff[starindex][0]]) * probVsqrt[sv]
             biasVvec[sv] = np.dot(self.om1bias[sv, :], omega1escape[sv, :]) * np.sqrt(prob[starindex]) - \
-                           np.dot(self.om1_b0[sv, :], omega0escape[svvacindex, :]) * probVsqrt[sv] - \
-                           np.dot(self.om2_b0[sv, :], omega0escape[svvacindex, :]) * probVsqrt[sv]
+                           np.dot(self.om1_b0[sv, :], omega0escape[svvacindex, :]) * probSV0sqrt - \
+                           np.dot(self.om2_b0[sv, :], omega0escape[svvacindex, :]) * probSV0sqrt
             # - biasSvec[sv]
         biasVvec_om2 = -biasSvec
 
